@@ -15,6 +15,7 @@ Translated items
              classes a f t o C z (value tables used by the defaults)-> kitty_f_rgb ... kitty_o_zlib
   iterm2.py  the three header f-strings of ITerm2Image._render_image -> iterm2_whole_header,
              iterm2_anim_header, iterm2_lines_header (lists of hparts)
+             presence of the ANIM -> WHOLE fall-back statement           -> iterm2_anim_falls_back
 """
 from __future__ import annotations
 
@@ -211,7 +212,42 @@ def iterm2_items():
         need(h and h[0] == ("lit", "size=") and h[1] == ("var", "compressed_image.tell()"),
              f"iterm2 {name} header does not start with size={{compressed_image.tell()}}: {h[:2]}")
         need(h[-1][0] == "lit" and h[-1][1].endswith(":"), f"iterm2 {name} header does not end with ':'")
-    return anim, lines, whole
+    return anim, lines, whole, anim_fallback(fn)
+
+
+def anim_fallback(fn):
+    """Is the statement  `if render_method == ANIM: render_method = WHOLE`  present
+    between the native-animation branch and the computation of `width, height`?
+    (the documented fall-back of ANIM to WHOLE for non-native renders)"""
+    def is_cmp(e, name):
+        return (isinstance(e, ast.Compare) and isinstance(e.left, ast.Name) and e.left.id == "render_method"
+                and len(e.ops) == 1 and isinstance(e.ops[0], ast.Eq) and len(e.comparators) == 1
+                and isinstance(e.comparators[0], ast.Name) and e.comparators[0].id == name)
+
+    native = [i for i, st in enumerate(fn.body) if isinstance(st, ast.If) and isinstance(st.test, ast.BoolOp)
+              and isinstance(st.test.op, ast.And) and any(is_cmp(v, "ANIM") for v in st.test.values)]
+    need(len(native) == 1, f"ITerm2Image._render_image: native-animation branch not found exactly once ({len(native)})")
+    wh = [i for i, st in enumerate(fn.body) if isinstance(st, ast.Assign) and len(st.targets) == 1
+          and isinstance(st.targets[0], ast.Tuple)
+          and [getattr(e, "id", None) for e in st.targets[0].elts] == ["width", "height"]]
+    need(len(wh) == 1 and wh[0] > native[0], "ITerm2Image._render_image: `width, height = ...` not found after the native branch")
+    found = False
+    for st in fn.body[native[0] + 1: wh[0]]:
+        if (isinstance(st, ast.If) and is_cmp(st.test, "ANIM") and not st.orelse and len(st.body) == 1
+                and isinstance(st.body[0], ast.Assign) and len(st.body[0].targets) == 1
+                and isinstance(st.body[0].targets[0], ast.Name) and st.body[0].targets[0].id == "render_method"
+                and isinstance(st.body[0].value, ast.Name) and st.body[0].value.id == "WHOLE"):
+            found = True
+        elif isinstance(st, (ast.Assign, ast.AugAssign, ast.AnnAssign)) and any(
+                isinstance(t, ast.Name) and t.id == "render_method"
+                for t in (st.targets if isinstance(st, ast.Assign) else [st.target])):
+            raise Refuse(f"iterm2.py:{st.lineno}: unexpected assignment to render_method")
+    # the native branch must end in `return` (so that what follows is the non-native path)
+    last = fn.body[native[0]].body[-1]
+    while isinstance(last, ast.With):
+        last = last.body[-1]
+    need(isinstance(last, ast.Return), "ITerm2Image._render_image: native branch does not end in return")
+    return found
 
 
 def hpart(p):
@@ -227,7 +263,7 @@ def hpart(p):
 
 def render():
     chunk_size, keys, defaults, tables = kitty_items()
-    anim, lines, whole = iterm2_items()
+    anim, lines, whole, fallback = iterm2_items()
 
     def kv(v):
         if v is None:
@@ -265,6 +301,10 @@ def render():
     for name, h in (("anim", anim), ("lines", lines), ("whole", whole)):
         L.append(f"Definition iterm2_{name}_header : list hpart :=")
         L.append("  [" + "; ".join(hpart(p) for p in h) + "].")
+    L.append("")
+    L.append("(** iterm2.py: is `if render_method == ANIM: render_method = WHOLE` present after the")
+    L.append("    native-animation branch of ITerm2Image._render_image (documented fall-back)? *)")
+    L.append(f"Definition iterm2_anim_falls_back : bool := {'true' if fallback else 'false'}.")
     return "\n".join(L) + "\n"
 
 
